@@ -270,6 +270,194 @@ fn extreme_sizes(ctx: &Ctx, rep: &mut Report) {
     println!("part extreme-sizes: {} cases", n);
 }
 
+/// "of the current size and scrollback configuration": after ESC c the scrollback limit is
+/// the configured one. For every limit, every history of <= 2 steps over scrolling, screen
+/// switches, resets and resizes, then ESC c, then numbered lines - one call per line and all
+/// in one call - until well past the retention bound: all of lines() against a fresh
+/// terminal given the same lines, after every call.
+fn scrollback_configuration(ctx: &Ctx, rep: &mut Report) {
+    use rayon::prelude::*;
+    let limits: Vec<usize> = ctx.tier.pick(vec![0, 1, 9, 10, 11, 20, 100], vec![0, 1, 2, 5, 9, 10, 11, 19, 20, 21, 25, 50, 99, 100, 101, 200, 1000]);
+    let sizes: &[(usize, usize)] = &[(3, 2), (8, 3)];
+    let mut cases: Vec<(usize, (usize, usize), Vec<usize>)> = vec![];
+    let nsteps = 7usize;
+    for &l in &limits {
+        for &sz in sizes {
+            cases.push((l, sz, vec![]));
+            for a in 0..nsteps {
+                cases.push((l, sz, vec![a]));
+                for b in 0..nsteps {
+                    cases.push((l, sz, vec![a, b]));
+                    if ctx.tier == Tier::Thorough {
+                        for c in 0..nsteps {
+                            cases.push((l, sz, vec![a, b, c]));
+                        }
+                    }
+                }
+            }
+        }
+    }
+    let step = |vt: &mut Vt, k: usize, l: usize, sz: (usize, usize)| match k {
+        0 => {
+            let _ = vt.feed_str(&"x\r\n".repeat(l + l / 10 + sz.1 + 3));
+        }
+        1 => {
+            let _ = vt.feed_str("\x1b[?1049h");
+        }
+        2 => {
+            let _ = vt.feed_str("\x1b[?1049l");
+        }
+        3 => {
+            let _ = vt.feed_str("\x1bc");
+        }
+        4 => {
+            let _ = vt.resize(sz.0 + 1, sz.1 + 1);
+        }
+        5 => {
+            let _ = vt.resize(sz.0, sz.1);
+        }
+        _ => {
+            for ch in "y\r\nz\r\n\x1bc".chars() {
+                vt.feed(ch);
+            }
+        }
+    };
+    let bad: Vec<String> = cases
+        .par_iter()
+        .filter_map(|(l, sz, hist)| {
+            let r = crate::engine::guarded(|| {
+                let mut vt = build_vt(sz.0, sz.1, Some(*l));
+                for &k in hist {
+                    step(&mut vt, k, *l, *sz);
+                }
+                let _ = vt.feed_str("\x1bc");
+                let size = vt.size();
+                let mut f = build_vt(size.0, size.1, Some(*l));
+                let n = 2 * (*l + *l / 10) + sz.1 + 6;
+                for i in 0..n {
+                    let line = format!("{}\r\n", i % 10);
+                    let _ = vt.feed_str(&line);
+                    let _ = f.feed_str(&line);
+                    let (a, b) = (obs_full(&vt), obs_full(&f));
+                    if a != b {
+                        return Some(format!("after line {}: lines() has {} rows, the fresh terminal's {} (or they differ in content)", i + 1, a.rows.len(), b.rows.len()));
+                    }
+                }
+                // and all at once
+                let mut vt2 = build_vt(sz.0, sz.1, Some(*l));
+                for &k in hist {
+                    step(&mut vt2, k, *l, *sz);
+                }
+                let all: String = (0..n).map(|i| format!("{}\r\n", i % 10)).collect();
+                let _ = vt2.feed_str(&format!("\x1bc{}", all));
+                let mut f2 = build_vt(size.0, size.1, Some(*l));
+                let _ = f2.feed_str(&all);
+                let (a, b) = (obs_full(&vt2), obs_full(&f2));
+                if a != b {
+                    return Some(format!("ESC c and {} lines in one call: lines() has {} rows, the fresh terminal's {}", n, a.rows.len(), b.rows.len()));
+                }
+                None
+            });
+            match r {
+                Ok(None) => None,
+                Ok(Some(d)) => Some(format!("limit {} size {}x{} history {:?} then ESC c: {}", l, sz.0, sz.1, hist, d)),
+                Err(p) => Some(format!("limit {} size {}x{} history {:?}: panic: {}", l, sz.0, sz.1, hist, p)),
+            }
+        })
+        .collect();
+    let n = cases.len() as u64;
+    rep.evaluations += n;
+    rep.traces_validated += n;
+    rep.transitions += n;
+    rep.distinct_nontrivial += n;
+    rep.parts.push(serde_json::json!({"part":"scrollback-configuration","limits":limits,"histories":cases.len(),"violating":bad.len()}));
+    println!("part scrollback-configuration: {} histories, {} violating", cases.len(), bad.len());
+    if let Some(d) = bad.first() {
+        emit_violation(ctx, rep, "C19", serde_json::json!({"part":"scrollback-configuration","oracle":"ris-then-input","observed":d}));
+        rep.violations += bad.len() as u64 - 1;
+    }
+}
+
+/// inputs that are large in one dimension each: anything that counts, accumulates or caps
+/// across calls has seen a lot before the reset and sees a lot after it
+pub fn heavy_inputs(n: usize) -> Vec<(String, String)> {
+    let pay = |k: usize| "p".repeat(k);
+    let mut v: Vec<(String, String)> = vec![
+        ("OSC payload, ESC \\".into(), format!("\x1b]52;{}\x1b\\", pay(n))),
+        ("OSC payload, BEL".into(), format!("\x1b]0;{}\x07", pay(n))),
+        ("8-bit OSC payload, 8-bit ST".into(), format!("\u{9d}0;{}\u{9c}", pay(n))),
+        ("DCS payload, ESC \\".into(), format!("\x1bPq{}\x1b\\", pay(n))),
+        ("8-bit DCS payload, 8-bit ST".into(), format!("\u{90}1;2${}\u{9c}", pay(n))),
+        ("SOS payload".into(), format!("\x1bX{}\x1b\\", pay(n))),
+        ("APC payload".into(), format!("\x1b_{}\u{9c}", pay(n))),
+        ("CSI digits".into(), format!("\x1b[{}m", "1".repeat(n))),
+        ("CSI parameters".into(), format!("\x1b[{}m", "1;".repeat(n))),
+        ("CSI sub-parameters".into(), format!("\x1b[{}m", "1:".repeat(n))),
+        ("CSI intermediates (ignored sequence)".into(), format!("\x1b[{}p", " ".repeat(n))),
+        ("many short OSC strings".into(), "\x1b]0;t\x1b\\".repeat(n / 8)),
+        ("many SGR sequences".into(), "\x1b[1m\x1b[m".repeat(n / 8)),
+        ("many save / restore pairs".into(), "\x1b7\x1b8\x1b[s\x1b[u".repeat(n / 10)),
+        ("printable text".into(), "t".repeat(n)),
+        ("line feeds".into(), "\n".repeat(n)),
+        ("tab stops set and cleared".into(), "\x1bH\x1b[g ".repeat(n / 8)),
+        ("screen switches".into(), "\x1b[?1049h\x1b[?1049l".repeat(n / 16)),
+        ("DEL and NUL".into(), "\x7f\0".repeat(n / 2)),
+    ];
+    // left open at the end: the reset (or whatever follows) has to end it
+    v.push(("unterminated OSC".into(), format!("\x1b]0;{}", pay(n))));
+    v.push(("unterminated DCS".into(), format!("\x1bP{}", pay(n))));
+    v.push(("unterminated CSI".into(), format!("\x1b[{}", "1;".repeat(n / 2))));
+    v
+}
+
+/// every heavy input before ESC c x every heavy input after it, compared with a fresh terminal
+fn heavy_history(ctx: &Ctx, rep: &mut Report) {
+    use rayon::prelude::*;
+    let sizes: Vec<usize> = ctx.tier.pick(vec![40000], vec![40000, 70000, 140000]);
+    let mut total = 0u64;
+    for n in sizes {
+        let heavy = heavy_inputs(n);
+        let pairs: Vec<(usize, usize)> = (0..heavy.len()).flat_map(|a| (0..heavy.len()).map(move |b| (a, b))).collect();
+        let bad: Vec<String> = pairs
+            .par_iter()
+            .filter_map(|&(a, b)| {
+                let r = crate::engine::guarded(|| {
+                    let mut vt = build_vt(6, 3, Some(10));
+                    let _ = vt.feed_str(&heavy[a].1);
+                    let _ = vt.feed_str("\x1bc");
+                    let tail = format!("{}\x1b\\\r\nZ\x1b[2;2Hw", heavy[b].1);
+                    let _ = vt.feed_str(&tail);
+                    let mut f = build_vt(6, 3, Some(10));
+                    let _ = f.feed_str(&tail);
+                    if obs_full(&vt) != obs_full(&f) {
+                        return Some(format!("lines() {:?} cursor {:?}; fresh: {:?} cursor {:?}", obs_full(&vt).rows, obs_full(&vt).cursor, obs_full(&f).rows, obs_full(&f).cursor));
+                    }
+                    if vt.dump() != f.dump() {
+                        return Some("dump() differs from the fresh terminal's".to_string());
+                    }
+                    None
+                });
+                match r {
+                    Ok(None) => None,
+                    Ok(Some(d)) => Some(format!("{} of {} characters, ESC c, then {} of {} characters: {}", heavy[a].0, n, heavy[b].0, n, d)),
+                    Err(p) => Some(format!("{} then ESC c then {} ({} characters): panic: {}", heavy[a].0, heavy[b].0, n, p)),
+                }
+            })
+            .collect();
+        total += pairs.len() as u64;
+        if let Some(d) = bad.first() {
+            emit_violation(ctx, rep, "C19", serde_json::json!({"part":"heavy-history","oracle":"ris-then-input","observed":d}));
+            rep.violations += bad.len() as u64 - 1;
+            break;
+        }
+    }
+    rep.evaluations += total;
+    rep.traces_validated += total;
+    rep.transitions += total;
+    rep.parts.push(serde_json::json!({"part":"heavy-history","pairs":total}));
+    println!("part heavy-history: {} (heavy input, ESC c, heavy input) pairs", total);
+}
+
 pub fn run(ctx: &Ctx) -> Report {
     let mut rep = Report::new();
     let sa = Sys { conts: &conts_full };
@@ -282,6 +470,8 @@ pub fn run(ctx: &Ctx) -> Report {
     rep.traces_validated = cmp;
     parser_residue(ctx, &mut rep);
     extreme_sizes(ctx, &mut rep);
+    scrollback_configuration(ctx, &mut rep);
+    heavy_history(ctx, &mut rep);
     rep.rule = "BFS over op histories (same alphabet as C11 incl. truncated sequences and resizes); at EVERY distinct state ESC c is applied and the result compared with a freshly built terminal of the current size and limit: all of lines(), cursor, cursor-key mode, dump(), then again after each probe of the battery and after every feed op of the alphabet; plus the parser side: every string of <= 3/4 parameter, sub-parameter, marker, intermediate and final bytes after each of six introducers, then ESC c, then every continuation of the battery and 22 parameter-sensitive ones, compared with a fresh terminal given the continuation alone".into();
     rep.assumptions = vec!["equivalence is observational (public API) plus dump() equality".into()];
     rep
@@ -296,6 +486,18 @@ pub fn replay(ctx: &Ctx, v: &Value) -> bool {
         "extreme-sizes" => {
             let mut rep = Report::new();
             extreme_sizes(ctx, &mut rep);
+            rep.violations > 0
+        }
+        "scrollback-configuration" => {
+            let mut rep = Report::new();
+            let c2 = Ctx { id: ctx.id.clone(), tier, seed: 0, start: ctx.start, known: ctx.known.clone(), replay_dir: ctx.replay_dir.clone() };
+            scrollback_configuration(&c2, &mut rep);
+            rep.violations > 0
+        }
+        "heavy-history" => {
+            let mut rep = Report::new();
+            let c2 = Ctx { id: ctx.id.clone(), tier, seed: 0, start: ctx.start, known: ctx.known.clone(), replay_dir: ctx.replay_dir.clone() };
+            heavy_history(&c2, &mut rep);
             rep.violations > 0
         }
         "parser-residue" => {
